@@ -144,6 +144,8 @@ type LockEngine struct {
 	analyzing map[*ssa.Function]bool
 	sites     map[*ssa.Function][]callSite
 	escapes   map[*ssa.Function]bool
+
+	inProgress map[*ssa.Function]bool
 }
 
 func NewLockEngine(p *Prog) *LockEngine {
@@ -369,7 +371,10 @@ func (le *LockEngine) buildCallIndex() {
 // function, expressed over the callee's parameters ("the caller holds the
 // lock" idiom of *Locked helpers).
 func (le *LockEngine) entryLocks(f *ssa.Function) lockset {
-	if f.Parent() != nil || f.Object() == nil || f.Object().Exported() {
+	if f.Parent() != nil {
+		return le.closureEntryLocks(f)
+	}
+	if f.Object() == nil || f.Object().Exported() {
 		return nil
 	}
 	if le.sites == nil {
@@ -1053,4 +1058,113 @@ func ruleNoLockCopy(c *Ctx, rule string, owners []*types.Named) int {
 			bad+": every call locks a private copy of "+lf+" while the guarded maps are shared — concurrent callers are not excluded (fatal 'concurrent map read and map write')")
 	}
 	return n
+}
+
+// closureEntryLocks: a function literal that is only ever run synchronously at one place - called
+// directly, or handed to a function of the module that does nothing with that parameter but call
+// it - starts with the locks its creator holds at that place (keys translated from the creator's
+// variables to the literal's captured variables).
+func (le *LockEngine) closureEntryLocks(f *ssa.Function) lockset {
+	parent := f.Parent()
+	var mc *ssa.MakeClosure
+	n := 0
+	eachInstr(parent, func(_ *ssa.BasicBlock, _ int, in ssa.Instruction) {
+		if x, ok := in.(*ssa.MakeClosure); ok && x.Fn == ssa.Value(f) {
+			mc = x
+			n++
+		}
+	})
+	if mc == nil || n != 1 {
+		return nil
+	}
+	refs := *mc.Referrers()
+	var site *ssa.Call
+	for _, r := range refs {
+		if _, isDbg := r.(*ssa.DebugRef); isDbg {
+			continue
+		}
+		c, ok := r.(*ssa.Call)
+		if !ok || site != nil {
+			return nil // stored, deferred, started with go, or used twice
+		}
+		site = c
+	}
+	if site == nil {
+		return nil
+	}
+	if site.Call.Value != ssa.Value(mc) {
+		// an argument of a call: the callee only calls it
+		h := site.Call.StaticCallee()
+		if h == nil || h.Blocks == nil || !inModule(h) {
+			return nil
+		}
+		okUse := false
+		for i, a := range site.Call.Args {
+			if a != ssa.Value(mc) || i >= len(h.Params) {
+				continue
+			}
+			okUse = true
+			for _, r := range *h.Params[i].Referrers() {
+				switch x := r.(type) {
+				case *ssa.DebugRef:
+				case *ssa.Call:
+					if x.Call.Value != ssa.Value(h.Params[i]) {
+						okUse = false
+					}
+				default:
+					okUse = false
+				}
+			}
+		}
+		if !okUse {
+			return nil
+		}
+	}
+	if le.inProgress == nil {
+		le.inProgress = map[*ssa.Function]bool{}
+	}
+	if le.inProgress[parent] {
+		return nil
+	}
+	le.inProgress[parent] = true
+	held := le.Analyze(parent).HeldBefore(site)
+	delete(le.inProgress, parent)
+	out := lockset{}
+	for i, fv := range f.FreeVars {
+		if i >= len(mc.Bindings) {
+			break
+		}
+		b := mc.Bindings[i]
+		// the creator's key for what the captured variable holds
+		var pk string
+		if a, ok := b.(*ssa.Alloc); ok {
+			if st := uniqueStore(a); st != nil {
+				pk = keyP(st.Val)
+			}
+			for k, m := range held {
+				ak := "*" + keyP(a)
+				if k == ak || strings.HasPrefix(k, ak+".") {
+					out["*free:"+fv.Name()+k[len(ak):]] = m
+				}
+			}
+		} else {
+			pk = keyP(b)
+		}
+		if pk == "" || pk == "?" {
+			continue
+		}
+		for k, m := range held {
+			if k == pk || strings.HasPrefix(k, pk+".") {
+				if _, isAlloc := b.(*ssa.Alloc); isAlloc {
+					out["*free:"+fv.Name()+k[len(pk):]] = m
+				} else {
+					out["free:"+fv.Name()+k[len(pk):]] = m
+				}
+			}
+		}
+	}
+	if len(out) == 0 {
+		return nil
+	}
+	return out
 }
